@@ -126,9 +126,7 @@ func (hc *httpCache) Get() (status Status, response *HTTPResponse) {
 		// 此时状态只可能是hit for pass 或者 hit
 		// 而此两种状态的数据缓存均不会立即失效，因此可以从hc中获取
 		status = hc.status
-		verifPoint("get.read2", hc, int(status))
 		response = hc.response
-		verifPoint("get.resumed", hc, int(status), response)
 	}
 	return
 }
